@@ -481,7 +481,9 @@ def minimize_lbfgsb(
             G,
             maxcor,
             mats,
-            is_force_update=False,
+            # the restored history must define the matrices even if the pair
+            # (x, grad) is (numerically) rejected
+            is_force_update=len(X) > 1,
             eps=eps_SY,
             is_check_factorization=is_check_factorization,
         )
@@ -602,6 +604,9 @@ def minimize_lbfgsb(
                 # We must check if the updated G satisfy the strong wolfe condition
                 # (before the stop tests: the pairs of the result are built from G)
                 X, G = make_X_and_G_respect_strong_wolfe(X, G, eps_SY, logger=logger)
+                if len(X) == 1:
+                    # the whole rewritten history has been dropped: reboot BFGS-Hessian
+                    mats = LBFGSB_MATRICES(n)
 
                 # Check stop criterion: minimum objective function value
                 # (same order as without update function)
@@ -620,7 +625,9 @@ def minimize_lbfgsb(
                 G,
                 maxcor,
                 mats,
-                is_force_update=False,
+                # the stored gradients may have been rewritten: the matrices must then be
+                # rebuilt even if the new pair is rejected
+                is_force_update=update_fun_def is not None and len(X) > 1,
                 eps=eps_SY,
                 is_check_factorization=is_check_factorization,
             )
